@@ -60,8 +60,11 @@ def _input_vars(ts, h, t, consts, layer):
     """z3 input valuation for step t"""
     ins = {}
     byname = {}
+    pmap = getattr(ts, "_pmap", None)
+    if pmap is None:
+        pmap = ts._pmap = {id(sig): pn for pn, sig in ts.port_names([sg for sg, _ in h._inputs.values()]).items()}
     for name, (sig, const) in h._inputs.items():
-        byname[sig.name] = (name, sig, const)
+        byname[pmap.get(id(sig), sig.name)] = (name, sig, const)
     for pname, (start, width) in ts.inputs.items():
         if pname in byname:
             name, sig, const = byname[pname]
@@ -136,7 +139,10 @@ def _setup_clocks(sim, h, T=1e-6):
             sim.add_clock(per * T, phase=(ph + 0.5) * T, domain=d)
         return True
     for d in h.domains:
-        sim.add_clock(T, domain=d)
+        try:
+            sim.add_clock(T, domain=d)
+        except NameError:
+            pass        # purely combinational harness: the declared domain has no flops
     return False
 
 
@@ -560,7 +566,8 @@ def run_cosim(q, prop, findings):
     cur = tm.init_values(ts.init_state())
     mism = []
     events = 0
-    byname = {sig.name: name for name, (sig, _) in h._inputs.items()}
+    pmap = {id(sig): pn for pn, sig in ts.port_names([sg for sg, _ in h._inputs.values()]).items()}
+    byname = {pmap.get(id(sig), sig.name): name for name, (sig, _) in h._inputs.items()}
     for t in range(N):
         ins = {}
         for pname, (start, width) in ts.inputs.items():
